@@ -204,6 +204,50 @@ def expected_write(view_bits, high, val, old):
     return [(val, i, False) for i in range(8)] + [(old, i, False) for i in range(8, 64)]
 
 
+def bit_classes(path):
+    """equalities between bits that the path has established by testing two values for equality: returns the
+    representative function of the resulting classes"""
+    parent = {}
+
+    def find(x):
+        if isinstance(x, list):
+            x = tuple(x)
+        r = x
+        while parent.get(r, r) != r:
+            r = parent[r]
+        return r
+
+    def union(x, y):
+        rx, ry = find(x), find(y)
+        if rx == ry:
+            return
+        # constants are the representatives of their class
+        if rx in (0, 1):
+            parent[ry] = rx
+        else:
+            parent[rx] = ry
+
+    for c in path.conds:
+        t = c[0]
+        tv = U.cond_truth(c)
+        if tv is None or not isinstance(t, tuple) or t[0] != "bin":
+            continue
+        if not ((t[1] == "Eq" and tv == 1) or (t[1] == "Ne" and tv == 0)):
+            continue
+        ba, bb = A.bitvec(t[2], path), A.bitvec(t[3], path)
+        n_ = max(len(ba), len(bb))
+        ba, bb = ba + [0] * (n_ - len(ba)), bb + [0] * (n_ - len(bb))
+        for x, y in zip(ba, bb):
+            if x is None or y is None or x == y:
+                continue
+            if not isinstance(x, int) and x[2]:
+                continue
+            if not isinstance(y, int) and y[2]:
+                continue
+            union(x, y)
+    return find
+
+
 def expected_read(view_bits, high, old):
     if high:
         return [(old, i + 8, False) for i in range(8)] + [0] * 56
@@ -250,17 +294,23 @@ def accessors(ctx, tabs):
                     if stores:
                         bad = bad or "touches other state: %s" % U.show_event(facts, stores[0])
                     if mode == "write":
-                        if len(ins) != 1:
-                            bad = bad or "%d register-file inserts" % len(ins)
-                            continue
-                        if ins[0][2] != parent:
-                            bad = bad or "inserts key %s, architecture %s" % (ins[0][2], parent)
+                        if len(ins) > 1 or (ins and ins[0][2] != parent):
+                            other = [x for x in ins if x[2] != parent]
+                            bad = bad or ("inserts key %s, architecture %s" % (other[0][2], parent) if other else
+                                          "%d register-file inserts" % len(ins))
                             continue
                         old = ("old", "registers", parent, 0)
-                        bv = A.bitvec(ins[0][3], o.path)
+                        # the final value of the parent's slot: what was stored, or the entry value on a path that
+                        # stores nothing (an elided write is right exactly when the path has established that the
+                        # register already holds the architectural result)
+                        final = ins[0][3] if ins else A.W(old, 64)
+                        bv = A.bitvec(final, o.path)
                         exp = expected_write(n, high, VAL, old)
                         if bv != exp:
-                            bad = bad or describe_bits(bv, exp)
+                            rep = bit_classes(o.path)
+                            if [rep(x) for x in bv] != [rep(x) for x in exp]:
+                                bv = [e_ if rep(b_) == rep(e_) else b_ for b_, e_ in zip(bv, exp)]
+                                bad = bad or (describe_bits(bv, exp) + ("" if ins else " (on a path that leaves the register as it was)"))
                         # the guard: the path must have assumed value <= max
                         if n < 64 and o.path.maxbits.get(VAL) != n:
                             bad = bad or "no range guard value <= %#x on the storing path" % ((1 << n) - 1)
